@@ -137,6 +137,9 @@ func c02(c *Ctx) {
 		r.Check(cf != nil && rr[cf], "C02.R5", "patch guard Cancel reaches restore", p.Pos(pg.Obj().Pos()), "Cancel → restore write", "cancelling a patch-based mock no longer reaches the write-back of the original bytes")
 	}
 
+	// ---- R7 Reset can only cancel what the builder still knows under the key it was filed: cache keys agree, nothing is evicted
+	checkCacheKeys(p, r, "C02.R7", "C02.R7")
+
 	// ---- R6 every path of a mocker's own Cancel reaches its guard's Cancel (unless there is no guard)
 	if mockerT != nil {
 		mi := mockerT.Underlying().(*types.Interface)
